@@ -1096,7 +1096,7 @@ func (v *FnVC) enterLoop(b *ssa.BasicBlock, l *loopInfo) {
 		v.assume(fmt.Sprintf("(>= %s %s)", v.st["nextref"], preNext))
 	}
 	// type ranges for havocked locals
-	for k := range l.writes {
+	for _, k := range sortedKeys(l.writes) {
 		if t, ok := v.localTypes[k]; ok {
 			if cur, ok := v.st[k]; ok {
 				v.assume(v.rangeOf(cur, t))
